@@ -246,7 +246,8 @@ def bounded(tier, seed):
     zones = sorted(zoneinfo.available_timezones())
     if tier == 'quick':
         zones = ['UTC', 'America/Edmonton', 'Europe/Berlin', 'Australia/Lord_Howe', 'Asia/Kolkata', 'America/St_Johns', 'Pacific/Chatham', 'Africa/Casablanca', 'Africa/Porto-Novo', 'Etc/GMT-3'] + rng.sample(zones, 12)
-    base_instants = [1000.0, 1399326141.999836, 1414915323.1225, 1414915323.9995, 1700000000.0005, 2000000000.25]
+    base_instants = [1000.0, 1399326141.999836, 1414915323.1225, 1414915323.9995, 1700000000.0005, 2000000000.25,
+                     -1.25, -1000.001, -86400.75, -0.5, -1e9 + 0.125]             # instants before 1970 too
     for zn in zones:
         try:
             z = zoneinfo.ZoneInfo(zn)
